@@ -138,7 +138,7 @@ type world struct {
 	pkgs    map[string]*pkgInfo // packages of the repository, type-checked from source
 	order   []string
 	decls   map[*types.Func]declRef
-	fieldAs map[*types.Var][]valRef // func-typed struct fields: every value assigned anywhere in the repository's packages
+	fieldAs map[*types.Var][]valRef    // func-typed struct fields: every value assigned anywhere in the repository's packages
 	sites   map[*types.Func][]callSite // static call sites of every declared function of the repository
 	litSumm map[*ast.FuncLit][]Point
 	litProg map[*ast.FuncLit]bool
@@ -186,7 +186,9 @@ type repoImporter struct {
 	byDir map[string]*listPkg
 }
 
-func (ri *repoImporter) Import(path string) (*types.Package, error) { return ri.ImportFrom(path, "", 0) }
+func (ri *repoImporter) Import(path string) (*types.Package, error) {
+	return ri.ImportFrom(path, "", 0)
+}
 func (ri *repoImporter) ImportFrom(path, dir string, mode types.ImportMode) (*types.Package, error) {
 	if lp := ri.byDir[dir]; lp != nil {
 		if m, ok := lp.ImportMap[path]; ok {
